@@ -108,7 +108,17 @@ func (h *Hub) Start() {
 // close all connections
 func (h *Hub) Shutdown() {
 	h.mdns.Shutdown()
+
+	// closing a connection removes it from h.connections (HandleConnectionClosed),
+	// so iterate over a snapshot taken under the lock
+	h.muxCon.Lock()
+	connections := make([]api.ShipConnectionInterface, 0, len(h.connections))
 	for _, c := range h.connections {
+		connections = append(connections, c)
+	}
+	h.muxCon.Unlock()
+
+	for _, c := range connections {
 		c.CloseConnection(false, 0, "")
 	}
 	if h.httpServer == nil {
